@@ -20,7 +20,7 @@ def decoder_bodies(f):
     """Bodies reachable from <LdapCodec as Decoder>::decode that call lber::Parser::parse."""
     out = []
     for path, h in f.hir.items():
-        if path.startswith('ldap3::') and any((callee_of(n) or '') == 'lber::parse::Parser::parse' for n, c in walk(h['body']) if n['k'] == 'MethodCall'):
+        if (path.startswith('ldap3::') or path.startswith('<ldap3::')) and any((callee_of(n) or '') == 'lber::parse::Parser::parse' for n, c in walk(h['body']) if n['k'] == 'MethodCall'):
             out.append(path)
     return out
 
